@@ -235,8 +235,11 @@ def run(tier, seed, model_ok, spec_ok, replay=None):
         docs = [doc if isinstance(doc, list) else g.container(2, 4, "list"), doc if isinstance(doc, dict) else g.container(2, 4, "dict")]
         # conditions
         t = cg.tree(doc, depth=g.r.choice([0, 0, 1, 2]), null_p=0.05)
+        cdocs = docs
         if g.r.random() < 0.25:
             planted = copy_value(doc)
+            cdocs = [planted]       # data-path arguments are judged on the document they were written for (a range bound picked up in an
+                                    # unrelated document could be astronomically large: `x in range(lo, hi)` scans for a non-integer x)
             t = rg.with_path_arg(t, planted)      # conditions that look at other nodes through data paths
             # a condition that has been used compares equal to a freshly built one: the two then behave alike on the SAME source
             # object, also after the caller edited that object in between
@@ -264,7 +267,7 @@ def run(tier, seed, model_ok, spec_ok, replay=None):
                 model = f"(run_cond_eq {t.coq(enc_arg1(Tags()))} {y.coq(enc_arg1(Tags()))})"
             except E.Unencodable:
                 pass
-            e1 = check_pair("condition", what, x_, y_, t.descr(), y.descr(), model, beh_cond, docs, terms=(t, y))
+            e1 = check_pair("condition", what, x_, y_, t.descr(), y.descr(), model, beh_cond, cdocs, terms=(t, y))
             # transitivity with a third, rebuilt copy
             z_ = copy.deepcopy(y).build()
             if e1 == ("ok", True) and not (x_ == z_):
